@@ -159,6 +159,7 @@ type Exec struct {
 	fixed     *Violation // concrete replay inside the interpreter
 	builders  map[string]StrV
 	syncMaps  map[string]MapV
+	pools     map[string][]Value
 }
 
 type nondetRec struct {
@@ -234,6 +235,7 @@ func (e *Exec) initPhase(pkg *ssa.Package) (err string) {
 	e.covers = map[string]bool{}
 	e.builders = map[string]StrV{}
 	e.syncMaps = map[string]MapV{}
+	e.pools = map[string][]Value{}
 	e.saved = map[*Obj]Value{}
 	defer func() {
 		if r := recover(); r != nil {
@@ -284,6 +286,7 @@ func (e *Exec) resetPath() {
 	e.wgs = map[string]int{}
 	e.builders = map[string]StrV{}
 	e.syncMaps = map[string]MapV{}
+	e.pools = map[string][]Value{}
 	e.pathAll = nil
 	e.nondetN = map[string]int{}
 	e.pathVars = nil
